@@ -311,7 +311,7 @@ class Acc:
         return False
 
     def sample(self, s):
-        if len(self.samples) < 3:
+        if len(self.samples) < 3 and s not in self.samples:
             self.samples.append(s)
 
     def dump(self):
@@ -694,8 +694,8 @@ def _slice_literal_cases(rng, tier):
         if t:
             cases.append((f'=LEFT({q})', T(t[:1]), 'C17.left.one_argument', L, None))
             cases.append((f'=RIGHT({q})', T(t[-1:]), 'C17.right.one_argument', L, None))
-    # keys strip '.literal' when the same class fails on the helper too: keep one key per root cause
-    cases = [(f, e, k.replace('.literal', ''), s, c) for f, e, k, s, c in cases]
+    # one key per root cause: the slice keys are the same as on the helpers
+    cases = [(f, e, k if k == 'C17.rebuild.literal' else k.replace('.literal', ''), s, c) for f, e, k, s, c in cases]
     # text literals holding ? or * (the lexer turns them into patterns): keyed apart
     for t, n in (('a?b', 2), ('a*b', 3), ('??', 1), ('what?', 5)):
         q = '"' + t + '"'
@@ -1196,8 +1196,8 @@ def run(tier='quick', seed=0):
             'all pairs of 11 literals for & and CONCATENATE, arities 1..255 with distinct markers (both separators), nested brackets, '
             'operands that are LEFT/MID/RIGHT/CONCATENATE calls',
             'one evaluation = one cell value compared with the operands\' Excel text forms joined in order (text as is, integer digits, '
-            'TRUE/FALSE, blank -> "", whole number without fraction, date -> serial number); keys name the first operand kind that is not '
-            'text/int', True, acc, t0))
+            'TRUE/FALSE, blank -> "", whole number without fraction, date -> serial number); a key names the operand kind whose text form is wrong when '
+            'joined with the empty text', True, acc, t0))
 
         # ---- 4 SEARCH on the helpers
         t0 = time.time()
